@@ -398,6 +398,33 @@ func ruleChecksBefore(w *World, r *Report, rule string, a *cmdAnchors, sk *itemS
 			r.OK(rule, key+":layout-guards-"+what, w.instrPos(layout), "the "+what+" is reached only when the layouts are equal; the other edge fails")
 		}
 	}
+	// no report of success (or of a verdict) without the comparison of the two layouts having been made: a return that
+	// is not a failure is not reachable from the function's entry around the layout check
+	if layout != nil {
+		idx := errResultIndex(sk.f)
+		// a return whose error result is nil on every way into it (results may be spilled around a defer)
+		succeeds := func(ret *ssa.Return) bool {
+			if idx < 0 {
+				return false
+			}
+			vals, complete := resultValues(ret, idx)
+			if !complete || len(vals) == 0 {
+				return false
+			}
+			for _, v := range vals {
+				if !isNilConst(v) {
+					return false
+				}
+			}
+			return true
+		}
+		ret := pathAvoidingTo(sk.f.Blocks[0], func(in ssa.Instruction) bool { return in == ssa.Instruction(layout) }, succeeds)
+		if ret != nil {
+			r.Violate(rule, key+":layout-before-success", w.instrPos(ret), "the success return at "+w.instrPos(ret)+" can be reached without the layouts of the two files having been compared: with nothing to write (or to list) a destination of another layout is accepted, or created, and the command reports success")
+		} else {
+			r.OK(rule, key+":layout-before-success", w.instrPos(layout), "every success return comes after the layout comparison")
+		}
+	}
 	if !needTRS {
 		return
 	}
